@@ -259,6 +259,23 @@ template <class A> void run_badtext(vf::Ctx& c, int archId) {
 	if (r.k == Res::NonStd) c.fail("a failure reaches the caller as something that is not a std::exception", d);
 	// whether ill-formed text in a std::string must be detected on save is C12's / C01's business; here: whatever happens is an exception or a normal return
 }
+namespace {
+// an object whose field count differs between the counting pass and the writing pass (state changes between the two calls of Serialize)
+struct Unstable { int* calls; int extraOnCall; std::string a = "aaaa"; std::vector<int> v{ 1, 2, 3 };
+	template <class A> void Serialize(A& ar) { const int n = (*calls)++; ar << KeyValue("a", a); if (n == extraOnCall || extraOnCall > 90) ar << KeyValue("extra", a) << KeyValue("extra2", v); if (n != extraOnCall || extraOnCall > 90) ar << KeyValue("v", v); } };
+}
+VF_PROPERTY(midsave_msgpack_count_mismatch, 1, "MessagePack save of objects (alone, in a vector, nested in a map) whose Serialize writes more or fewer members than the counting pass announced: the writer's consistency error must reach the caller as an exception - no terminate, no leak, the output object stays destructible; memory and streams; non-trivial = always") {
+	int calls = 0; const int extraOn = static_cast<int>(c.src.draw(4)); const int shape = static_cast<int>(c.src.draw(3)); const bool stream = c.src.coin();
+	c.nontrivial = true; c.describe(vf::cat("msgpack unstable field count extraOnCall=", extraOn, " shape=", shape, " stream=", stream));
+	Res r = call([&] {
+		std::string out; std::ostringstream os;
+		if (shape == 0) { Unstable u{ &calls, extraOn }; if (stream) SaveObject<MsgPackArchive>(u, os); else SaveObject<MsgPackArchive>(u, out); }
+		else if (shape == 1) { std::vector<Unstable> v; for (int i = 0; i < 3; i++) v.push_back(Unstable{ &calls, extraOn }); if (stream) SaveObject<MsgPackArchive>(v, os); else SaveObject<MsgPackArchive>(v, out); }
+		else { std::map<std::string, Unstable> m; m.emplace("k1", Unstable{ &calls, extraOn }); m.emplace("k2", Unstable{ &calls, extraOn }); if (stream) SaveObject<MsgPackArchive>(m, os); else SaveObject<MsgPackArchive>(m, out); }
+	});
+	if (r.k == Res::NonStd) c.fail("a failure reaches the caller as something that is not a std::exception", vf::cat("extraOnCall=", extraOn, " shape=", shape));
+	c.label(r.k == Res::Ok ? "saved" : "rejected");
+}
 VF_PROPERTY(invalid_options, 1, "operations rejected for their options: CSV load / save (memory and stream) with a separator that is not allowed, XML / JSON pretty printing with extreme padding: the caller gets an exception (or a normal result), nothing leaks (LeakSanitizer at child exit); non-trivial = the option is rejected") {
 	static const char seps[] = { ':', '#', '\0', '"', '\n', 'a', ',', ';' }; SerializationOptions o; o.valuesSeparator = seps[c.src.draw(8)]; const bool stream = c.src.coin(); const bool loading = c.src.coin();
 	std::vector<Row> rows = gen_rows(c.src); std::string doc; { std::string tmp; SerializationOptions ok; SaveObject<CsvArchive>(rows, tmp, ok); doc = tmp; }
